@@ -94,6 +94,20 @@ def items(tier: str, seed: int) -> list[Any]:
     for ms in (250, 2500):
         for fr in scripts(ALPHA_CORE, 2, 1):
             add(fr, "wr", "one", ms)
+    # conformance of the stream model against real loopback sockets / real timers (few: they take real seconds)
+    conf = [
+        ([("ack1", 1), ("data:62f1aa", 1)], "wr", "one"),
+        ([("ack1", 1), ("data:62f1aa", 1)], "wr", "bytes"),
+        ([("alive0", 0), ("ack1", 1), ("data:62f1aa", 1)], "wr", "frames"),
+        ([("data:62f1aa", 0), ("ack1", 1), ("data:7f2278", 1)], "wr", "one"),
+        ([("alive0", 0), ("data:62f1aa", 0)], "r", "frames"),
+        ([("err40", 1)], "wr", "one"),
+        ([("ack1", 1), ("ack2", 2)], "ww", "frames"),
+        ([], "wr", "one"),
+    ]
+    for fr, pname, seg in conf if not quick else conf[:6]:
+        d = {"proto": "hsfz", "frames": fr, "program": PROGRAMS[pname], "seg": seg, "conform": True}
+        out.append((d, 0, cap))
     return out
 
 
@@ -111,4 +125,6 @@ def finish(merged: Result, tier: str) -> dict[str, Any]:
         if not c.get(k):
             raise Broken(f"vacuous exploration: {k} == 0")
     capped = c.get("capped_items", 0)
-    return {"exhaustive": capped == 0, "capped_scenarios": capped, "deviation_bound": 1 if tier == "quick" else 2}
+    if not c.get("conformance_replays"):
+        raise Broken("no conformance replay ran")
+    return {"conformance_replays": c.get("conformance_replays", 0), "exhaustive": capped == 0, "capped_scenarios": capped, "deviation_bound": 1 if tier == "quick" else 2}
